@@ -43,6 +43,8 @@ func runC03(c *Ctx, r *Report) {
 	importRules(c, r, "C04", []string{"R-C04.2"}, "R-C03.13")
 	r.Doc("R-C03.14", "every entry the log holds can be a head: the head-set constructor leaves nothing out for its content (adopted from C02)")
 	importRules(c, r, "C02", []string{"R-C02.11"}, "R-C03.14")
+	r.Doc("R-C03.16", "a size-bounded merge rebuilds the successor index from the entries it keeps (adopted from C16: a stale record of a cut-off successor hides the entry from the head search when it comes back with a later merge, and the walk from the heads never reaches it)")
+	importRules(c, r, "C16", []string{"R-C16.9"}, "R-C03.16")
 	mergedHeadsDeps(c, r, "R-C03.13", p.FuncI("", "IPFSLog", "Join"))
 	pureMerge(c, r, "R-C03.8")
 	{
